@@ -268,3 +268,199 @@ Example glob_ex9 : glob_match [92;42] [42] = GOk true.                          
 Proof. reflexivity. Qed.
 Example glob_ex10 : glob_match [63] [195;188] = GOk true.                                (* ? vs one 2-byte rune *)
 Proof. reflexivity. Qed.
+
+(** * Separators: [*] and [?] never match '/' *)
+
+Section separators.
+
+Lemma mem_cons_false b c s : mem b (c :: s) = false -> (c =? b) = false /\ mem b s = false.
+Proof.
+  unfold mem. cbn [existsb]. intros H. apply orb_false_iff in H as [H1 H2].
+  rewrite N.eqb_sym. auto.
+Qed.
+
+Lemma count_cont l : forallb is_cont l = true -> count sep l = 0%nat.
+Proof.
+  induction l as [|c l IH]; cbn [forallb count]; [reflexivity|]. intros H.
+  apply andb_true_iff in H as [H1 H2]. unfold is_cont in H1. apply andb_true_iff in H1 as [H1 _].
+  apply N.leb_le in H1. assert ((c =? sep) = false) as -> by (apply N.eqb_neq; unfold sep; lia).
+  apply IH, H2.
+Qed.
+
+Lemma lead_info_size b sz lo hi : lead_info b = Some (sz, lo, hi) -> (2 <= sz)%nat.
+Proof.
+  unfold lead_info.
+  repeat match goal with |- context [if ?c then _ else _] => destruct c end;
+    intros H; try discriminate; injection H as <- _ _; lia.
+Qed.
+
+(** The bytes [?] or a class consume for one rune contain no separator unless
+    the first one is a separator. *)
+Lemma decode_no_sep b0 t :
+  (b0 =? sep) = false ->
+  count sep (firstn (snd (decode_rune (b0 :: t))) (b0 :: t)) = 0%nat.
+Proof.
+  intros Hb. assert (H1 : count sep (firstn 1 (b0 :: t)) = 0%nat) by (cbn; rewrite Hb; reflexivity).
+  unfold decode_rune. destruct (b0 <? 128); [exact H1|].
+  destruct (lead_info b0) as [[[sz lo] hi]|] eqn:El; [|exact H1].
+  destruct (_ && _ && _ && _) eqn:Ec; [|exact H1]. cbn [snd].
+  pose proof (lead_info_size _ _ _ _ El) as Hsz.
+  apply andb_true_iff in Ec as [Ec _]. apply andb_true_iff in Ec as [Ec _].
+  apply andb_true_iff in Ec as [_ Ec].
+  destruct sz as [|sz']; [lia|]. cbn [firstn count]. rewrite Hb.
+  replace (S sz' - 1)%nat with sz' in Ec by lia. apply count_cont, Ec.
+Qed.
+
+(** A chunk without class and escape consumes exactly as many separators as
+    it contains (its '?' never stand for one). *)
+Lemma match_chunk_slashes : forall fuel chunk s failed t,
+  mem c_lbr chunk = false -> mem c_bslash chunk = false ->
+  match_chunk fuel chunk s failed = GOk (Some t) ->
+  failed = false /\ exists consumed, s = consumed ++ t /\ count sep consumed = count sep chunk.
+Proof.
+  induction fuel as [|f IH]; intros chunk s failed t Hl Hb; cbn [match_chunk]; [discriminate|].
+  destruct chunk as [|c ctl].
+  - destruct failed; [discriminate|]. intros [= <-]. split; [reflexivity|]. exists []. auto.
+  - apply mem_cons_false in Hl as [Hl1 Hl2]. apply mem_cons_false in Hb as [Hb1 Hb2].
+    rewrite Hl1. destruct (c =? c_quest) eqn:Eq.
+    + apply N.eqb_eq in Eq. subst c.
+      destruct (failed || is_nil s) eqn:Ef.
+      * intros H. apply IH in H as [H _]; auto. discriminate.
+      * apply orb_false_iff in Ef as [-> Hs]. destruct s as [|b0 s0]; [discriminate|].
+        intros H. apply IH in H as [Hsep (consumed & Hc & Hn)]; auto.
+        split; [reflexivity|]. cbn [hd] in Hsep.
+        exists (firstn (snd (decode_rune (b0 :: s0))) (b0 :: s0) ++ consumed). split.
+        -- rewrite <- app_assoc, <- Hc. symmetry. apply firstn_skipn.
+        -- rewrite count_app, (decode_no_sep _ _ Hsep), Hn. reflexivity.
+    + rewrite Hb1. destruct (failed || is_nil s) eqn:Ef.
+      * intros H. apply IH in H as [H _]; auto. discriminate.
+      * apply orb_false_iff in Ef as [-> Hs]. destruct s as [|b0 s0]; [discriminate|].
+        intros H. apply IH in H as [Hsep (consumed & Hc & Hn)]; auto.
+        cbn [hd tl] in *. apply negb_false_iff, N.eqb_eq in Hsep. subst b0.
+        split; [reflexivity|]. exists (c :: consumed). split; [cbn; f_equal; exact Hc|].
+        cbn [count]. rewrite Hn. reflexivity.
+Qed.
+
+Lemma star_loop_slashes : forall name chunk last t,
+  mem c_lbr chunk = false -> mem c_bslash chunk = false ->
+  star_loop chunk name last = GOk (Some t) ->
+  exists skipped consumed, name = skipped ++ consumed ++ t /\
+    count sep skipped = 0%nat /\ count sep consumed = count sep chunk.
+Proof.
+  induction name as [|c tl IH]; intros chunk last t Hl Hb; cbn [star_loop]; [discriminate|].
+  destruct (c =? sep) eqn:Ec; [discriminate|].
+  assert (Hrec : star_loop chunk tl last = GOk (Some t) ->
+          exists skipped consumed, c :: tl = skipped ++ consumed ++ t /\
+            count sep skipped = 0%nat /\ count sep consumed = count sep chunk).
+  { intros H. destruct (IH _ _ _ Hl Hb H) as (sk & co & -> & H1 & H2).
+    exists (c :: sk), co. repeat split; auto. cbn [count]. rewrite Ec. exact H1. }
+  destruct (match_chunk (S (length chunk)) chunk tl false) as [[rest|]| |] eqn:Em; try discriminate.
+  - destruct (last && negb (is_nil rest)); [exact Hrec|].
+    intros [= ->]. apply match_chunk_slashes in Em as [_ (co & -> & Hn)]; auto.
+    exists [c], co. repeat split; auto. cbn [count]. rewrite Ec. reflexivity.
+  - exact Hrec.
+Qed.
+
+Lemma strip_stars_count p : count sep (snd (strip_stars p)) = count sep p.
+Proof.
+  induction p as [|c t IH]; cbn [strip_stars]; [reflexivity|].
+  destruct (c =? c_star) eqn:E; [|reflexivity]. cbn [snd count].
+  apply N.eqb_eq in E. subst c. cbn. exact IH.
+Qed.
+
+Lemma strip_stars_mem b p : mem b p = false -> mem b (snd (strip_stars p)) = false.
+Proof.
+  induction p as [|c t IH]; cbn [strip_stars]; [auto|].
+  destruct (c =? c_star); [|auto]. intros H. apply mem_cons_false in H as [_ H]. apply IH, H.
+Qed.
+
+Lemma strip_stars_hd p :
+  match snd (strip_stars p) with c :: _ => (c =? c_star) = false | [] => True end.
+Proof.
+  induction p as [|c t IH]; cbn [strip_stars]; [exact I|].
+  destruct (c =? c_star) eqn:E; [exact IH|]. cbn [snd]. exact E.
+Qed.
+
+Lemma scan_plain p :
+  mem c_lbr p = false -> mem c_bslash p = false ->
+  p = fst (scan p false) ++ snd (scan p false) /\
+  mem c_lbr (fst (scan p false)) = false /\ mem c_bslash (fst (scan p false)) = false /\
+  mem c_lbr (snd (scan p false)) = false /\ mem c_bslash (snd (scan p false)) = false /\
+  (fst (scan p false) = [] -> p = [] \/ exists t, p = c_star :: t).
+Proof.
+  induction p as [|c t IH]; intros Hl Hb; cbn [scan].
+  - cbn. repeat split; auto.
+  - pose proof Hl as Hl0. pose proof Hb as Hb0.
+    apply mem_cons_false in Hl as [Hl1 Hl2]. apply mem_cons_false in Hb as [Hb1 Hb2].
+    rewrite Hb1, Hl1. destruct (IH Hl2 Hb2) as (H1 & H2 & H3 & H4 & H5 & _).
+    assert (Hcons : c :: t = (c :: fst (scan t false)) ++ snd (scan t false))
+      by (cbn; f_equal; exact H1).
+    assert (Hm1 : mem c_lbr (c :: fst (scan t false)) = false).
+    { unfold mem in *. cbn [existsb]. rewrite N.eqb_sym, Hl1. exact H2. }
+    assert (Hm2 : mem c_bslash (c :: fst (scan t false)) = false).
+    { unfold mem in *. cbn [existsb]. rewrite N.eqb_sym, Hb1. exact H3. }
+    destruct (c =? c_rbr).
+    + destruct (scan t false) as [a b]. cbn [fst snd] in *. repeat split; auto. discriminate.
+    + destruct (c =? c_star) eqn:Es; cbn [andb negb].
+      * cbn [fst snd app]. repeat split; auto. intros _. right.
+        apply N.eqb_eq in Es. subst c. eauto.
+      * destruct (scan t false) as [a b]. cbn [fst snd] in *. repeat split; auto. discriminate.
+Qed.
+
+Lemma match_loop_slashes : forall fuel pattern name,
+  mem c_lbr pattern = false -> mem c_bslash pattern = false ->
+  match_loop fuel pattern name = GOk true ->
+  count sep name = count sep pattern.
+Proof.
+  induction fuel as [|f IH]; intros pattern name Hl Hb; cbn [match_loop]; [discriminate|].
+  destruct pattern as [|c0 ptl].
+  - destruct name; [reflexivity|discriminate].
+  - set (P := c0 :: ptl) in *. unfold scan_chunk.
+    pose proof (strip_stars_count P) as Hcnt.
+    pose proof (strip_stars_mem _ _ Hl) as Hl1. pose proof (strip_stars_mem _ _ Hb) as Hb1.
+    pose proof (strip_stars_hd P) as Hhd.
+    destruct (strip_stars P) as [star p1]. cbn [snd] in *.
+    destruct (scan_plain p1 Hl1 Hb1) as (Hp & Hcl & Hcb & Hrl & Hrb & Hnil).
+    destruct (scan p1 false) as [chunk rest]. cbn [fst snd] in *.
+    assert (Hsum : count sep P = (count sep chunk + count sep rest)%nat)
+      by (rewrite <- Hcnt, Hp at 1; apply count_app).
+    destruct (star && is_nil chunk) eqn:Esn.
+    + apply andb_true_iff in Esn as [_ Hn]. destruct chunk; [|discriminate].
+      intros [= Hm]. apply negb_true_iff in Hm. apply mem_count in Hm. rewrite Hm, Hsum. cbn.
+      destruct (Hnil eq_refl) as [->|[t ->]].
+      * cbn in Hp. subst rest. reflexivity.
+      * cbn in Hhd. discriminate.
+    + assert (Hretry :
+        (if star then
+           match star_loop chunk name (is_nil rest) with
+           | GOk (Some t) => match_loop f rest t
+           | GOk None => GOk false
+           | GBad => GBad
+           | GFuel => GFuel
+           end
+         else GOk false) = GOk true -> count sep name = count sep P).
+      { destruct star; [|discriminate].
+        destruct (star_loop chunk name (is_nil rest)) as [[t|]| |] eqn:Esl; try discriminate.
+        intros H. apply IH in H; auto.
+        apply star_loop_slashes in Esl as (sk & co & -> & H1 & H2); auto.
+        rewrite !count_app, H1, H2, H, Hsum. reflexivity. }
+      destruct (match_chunk (S (length chunk)) chunk name false) as [[t|]| |] eqn:Em;
+        try discriminate; [|exact Hretry].
+      destruct (is_nil t || negb (is_nil rest)); [|exact Hretry].
+      intros H. apply IH in H; auto.
+      apply match_chunk_slashes in Em as [_ (co & -> & Hn)]; auto.
+      rewrite count_app, Hn, H, Hsum. reflexivity.
+Qed.
+
+(** For a pattern without character classes and escapes, a matching name has
+    exactly as many separators as the pattern: [*] and [?] never stand for a
+    '/'.  (A class can: "[/]" matches "/"; that is visible in the pattern.) *)
+Theorem glob_match_slashes pat name :
+  plain_pattern pat = true -> glob_match pat name = GOk true ->
+  count sep name = count sep pat.
+Proof.
+  unfold plain_pattern, glob_match. intros H. apply andb_true_iff in H as [H1 H2].
+  apply negb_true_iff in H1, H2. apply match_loop_slashes; assumption.
+Qed.
+
+End separators.
